@@ -24,8 +24,18 @@ def gen_case(rng, i):
         ind = rng.choice([{}, {"parameters": {"tau": "1"}}, {"options": {"sim_time": "0.1"}, "parameters": {"a": "2"}}])
     if kind == "malformed-system":
         d = ind["dynamics"][0]
-        d.pop("initial_value", None)
-        d.pop("initial_values", None)
+        how = rng.choice(["no-initial-value", "syntax-error", "unknown-option", "higher-order-inhomogeneous", "two-equals"])
+        if how == "no-initial-value":
+            d.pop("initial_value", None)
+            d.pop("initial_values", None)
+        elif how == "syntax-error":
+            d["expression"] = d["expression"] + " +"
+        elif how == "unknown-option":
+            ind["options"] = {"no_such_option": "1"}
+        elif how == "higher-order-inhomogeneous":
+            ind["dynamics"] = [{"expression": "x'' = -x - 2*x' + 1", "initial_values": {"x": "0", "x'": "0"}}]
+        else:
+            d["expression"] = d["expression"] + " = 0"
     names = [d["expression"].split("=")[0].strip() for d in ind.get("dynamics", [])]
     first = [n[:-1] for n in names if n.count("'") == 1]
     argv = ["--disable-stiffness-check"]           # PyGSL is absent: without it every run fails the same way in API and CLI (also exercised below)
@@ -84,7 +94,11 @@ def case_cli(case):
         content = None
         if produced:
             with open(os.path.join(tmp, produced[0])) as f:
-                content = json.load(f)
+                raw = f.read()
+            try:
+                content = json.loads(raw)
+            except ValueError:
+                content = {"unparseable_result_file": raw[:80], "size": len(raw)}
         api = None
         api_exc = None
         if case["kind"] in ("ok", "malformed-system", "no-dynamics"):
